@@ -152,6 +152,10 @@ func (f *StarvingMutex) Unlock() {
 
 	f.mutex.Unlock()
 	f.writerCond.Signal()
+	// blocked readers have to be woken as well: the lock is free, so a reader that arrives now is granted at once and the
+	// signaled writer goes back to sleep - a reader that blocked earlier would otherwise stay blocked behind a mere reader
+	// (and a goroutine that holds other locks of a DAGMutex while it waits here turns that into a deadlock)
+	f.readerCond.Broadcast()
 }
 
 // String returns a string representation of the StarvingMutex.
